@@ -19,6 +19,7 @@ structure Inv19 (inp : RunInput) (s : Sys) : Prop where
   g1 : ∀ n, stOf s n ≠ .none → Ev.getStatus n ∈ s.events
   ex : ∀ n, cExec s n = if inp.runner = .process then 0 else cStart s n
   ord : repOrd (exOf inp) false (fun _ => false) s.events = true
+  st : ∀ n, cStart s n ≥ 1 → stOf s n = .run ∨ cTerm s n ≥ 1
 
 /-! ### list facts -/
 
@@ -57,13 +58,18 @@ theorem Inv19.same {inp : RunInput} {s s' : Sys} (h : Inv19 inp s) (e1 : s'.even
   · intro n hn; rw [e1]; exact h.g1 n (by rw [← e2]; exact hn)
   · intro n; simp only [cExec, cStart, e1]; exact h.ex n
   · rw [e1]; exact h.ord
+  · intro n hn
+    have : cStart s n ≥ 1 := by simpa [cStart, e1] using hn
+    rcases h.st n this with a | a
+    · left; rw [e2]; exact a
+    · right; simpa [cTerm, e1] using a
 
 theorem Inv19.outer {inp : RunInput} {s s' : Sys} (h : Inv19 inp s) (o : SameOuter s s')
     (e2 : ∀ x, stOf s' x = stOf s x) : Inv19 inp s' :=
   h.same o.1 e2 o.2.2.2.2.2.2.1
 
 theorem init_inv19 (inp : RunInput) : Inv19 inp (init inp) := by
-  constructor <;> simp [init, finalEv, stOf, cExec, cStart, repOrd]
+  constructor <;> simp [init, finalEv, stOf, cExec, cStart, cTerm, repOrd]
 
 /-! ### `select_task` -/
 
@@ -186,6 +192,15 @@ theorem inv19_select {inp : RunInput} {s : Sys} {n : Name} {nd : Node} (h : Inv1
     simpa using this
   · rw [hev]
     cases d <;> simp [selEvents, repOrd, repOK, firstFinal, P1, P2, P3, P4, P5] at hne ⊢
+  · intro x hx
+    have c := counts_append hev x
+    have sc := selEvents_counts inp n nd d x
+    rw [c.2.1, sc.start] at hx
+    by_cases e : x = n
+    · subst e; omega
+    · rcases h.st x (by omega) with a | a
+      · left; rw [hst]; simp only [e, if_false]; exact a
+      · right; rw [c.2.2.2]; omega
 
 /-! ### `execute_task`: the start of the actions -/
 
@@ -236,6 +251,17 @@ theorem inv19_start {inp : RunInput} {s s' : Sys} {n w : Nat} (h : Inv19 inp s) 
       have P2 := any_false_of_countP (show s.events.countP (Ev.isTerminalOf n) = 0 from hterm)
       have P4 := any_false_of_countP (show s.events.countP (Ev.isExecOf n) = 0 from hexec)
       simp [hp, repOrd, repOK, firstFinal, exOf_true hp, ho', P1, P2, P4, Ev.isExecOf]
+  · intro x hx
+    by_cases e : x = n
+    · subst e; left; rw [hst]; exact hrun
+    · have hx' : ¬ n = x := fun a => e a.symm
+      have h1 : cStart s' x = cStart s x := by
+        simp only [cStart, hev, List.countP_append]
+        split <;> simp [List.countP_cons, Ev.isStartOf, hx']
+      have h2 : cTerm s' x = cTerm s x := by
+        simp only [cTerm, hev, List.countP_append]
+        split <;> simp [List.countP_cons, Ev.isTerminalOf]
+      rw [h1] at hx; rw [hst, h2]; exact h.st x hx
 
 /-- the actions of `n` end -/
 theorem inv19_fin {inp : RunInput} {s s' : Sys} {n w : Nat} (h : Inv19 inp s) (hrun : stOf s n = .run)
@@ -260,6 +286,10 @@ theorem inv19_fin {inp : RunInput} {s s' : Sys} {n w : Nat} (h : Inv19 inp s) (h
   · rw [hev]
     have P := any_true_of_countP (show s.events.countP (Ev.isStartOf n) ≥ 1 from hstart)
     simp [repOrd, repOK, P, h.ord]
+  · intro x hx
+    have h1 : cStart s' x = cStart s x := by simp [cStart, hev, List.countP_cons, Ev.isStartOf]
+    have h2 : cTerm s' x = cTerm s x := by simp [cTerm, hev, List.countP_cons, Ev.isTerminalOf]
+    rw [h1] at hx; rw [hst, h2]; exact h.st x hx
 
 /-! ### `process_task_result` -/
 
@@ -322,6 +352,16 @@ theorem inv19_result {inp : RunInput} {s : Sys} {n : Name} {nd : Node} (h : Inv1
     · have P4' := P4 hxo
       rw [hxo] at ho'
       cases ho : inp.outcome n <;> simp [resEvents, repOrd, repOK, firstFinal, P1, P2, P3, P4', ho']
+  · intro x hx
+    have c := counts_append hev x
+    have rc := resEvents_counts n (inp.outcome n) x
+    rw [c.2.1, rc.start] at hx
+    by_cases e : x = n
+    · subst e; right; rw [c.2.2.2, rc.term]; simp
+    · have e' : ¬ n = x := fun a => e a.symm
+      rcases h.st x (by omega) with a | a
+      · left; rw [hst]; simp only [e, if_false]; exact a
+      · right; rw [c.2.2.2]; omega
 
 /-! ### `Runner.finish` -/
 
@@ -368,5 +408,10 @@ theorem inv19_finishRun {inp : RunInput} {s : Sys} (h : Inv19 inp s) : Inv19 inp
     rw [hcnt _ (by rfl) (by intro t; rfl), hcnt _ (by rfl) (by intro t; rfl)]; exact this
   · rw [hev]; simp only [repOrd, repOK, Bool.true_and]
     exact repOrd_teardown _ _ _ _ _ h.ord
+  · intro x hx
+    unfold cStart cTerm at *
+    rw [hcnt _ (by rfl) (by intro t; rfl)] at hx
+    rw [hcnt _ (by rfl) (by intro t; rfl)]
+    exact h.st x hx
 
 end DoitModel.Report
